@@ -167,6 +167,33 @@ class TypeModel:
         t = self.get(t) if isinstance(t, str) else t
         return t.cls.is_subclass_of(base)
 
+    def operand_count(self, t: UFLType):
+        """Number of operands an instance really carries: length of the literal operand tuple passed
+        to Operator.__init__ / assigned to self.ufl_operands in the nearest class that has one;
+        falls back to the declared num_ops ('varying' stays 'varying')."""
+        import ast
+
+        from .model import norm
+
+        if t.traits["is_terminal"]:
+            return 0
+        for k in t.cls.mro():
+            found = []
+            for fi in k.all_defs:
+                for n in ast.walk(fi.node):
+                    tup = None
+                    if isinstance(n, ast.Call) and norm(n.func).endswith(".__init__") and len(n.args) >= 2 and norm(n.args[0]) == "self":
+                        tup = n.args[1]
+                    elif isinstance(n, ast.Assign) and any(norm(x) == "self.ufl_operands" for x in n.targets):
+                        tup = n.value
+                    if isinstance(tup, ast.Tuple) and not any(isinstance(e, ast.Starred) for e in tup.elts):
+                        found.append(len(tup.elts))
+            if found:
+                return max(found)
+            if k.name in self.types and self.types[k.name].cls is k and k.ufl_type_kwargs.get("num_ops") == "varying":
+                return "varying"
+        return t.traits["num_ops"]
+
     # --------------------------------------------------------- cross-check
     def crosscheck_runtime(self):
         """Compare with the live registry (imports ufl from the working tree; executes
